@@ -181,7 +181,7 @@ pub fn c17(ctx: &mut Ctx) {
     // result only when two *different* operands with the same key follow each other on one thread.
     // Random histories meet such a pair with probability 2^-32; here the pairs are computed.
     if !small {
-        weak_key_histories(ctx);
+        weak_key_histories(ctx, "c17.weak-key-history", &[]);
         semantic_key_histories(ctx, "c17.semantic-key-history", &[]);
     }
 
@@ -784,7 +784,7 @@ fn colliding_literals(rng: &mut Rng, len: usize, per_hash: usize) -> Vec<(&'stat
     out
 }
 
-fn weak_key_histories(ctx: &mut Ctx) {
+pub fn weak_key_histories(ctx: &mut Ctx, monitor: &str, judged_ops: &[&str]) {
     let lens = [16usize, 17, 20, 24, 32, 40, 64, 19];
     let len = lens[(ctx.shard % lens.len() as u64) as usize];
     let mut rng = Rng::from_parts(ctx.seed, "C17-weak-keys", ctx.shard);
@@ -807,14 +807,53 @@ fn weak_key_histories(ctx: &mut Ctx) {
             Box::new(|s| (json!({"in": [s, [s, 1]]}), Value::Null)),
             Box::new(|s| (json!({"substr": [s, 3, 5]}), Value::Null)),
             Box::new(|s| (json!({"missing": [s]}), json!({ s: 1 }))),
+            Box::new(|s| (json!({"<": [s, 5]}), Value::Null)),
+            Box::new(|s| (json!({">=": [{"var": "s"}, 1e17]}), json!({ "s": s }))),
+            Box::new(|s| (json!({"<=": [0, s, 1e300]}), Value::Null)),
+            Box::new(|s| (json!({">": [s, [7]]}), Value::Null)),
+            Box::new(|s| (json!({"!=": [{"var": "s"}, 12345]}), json!({ "s": s }))),
+            Box::new(|s| (json!({"/": [s, 1]}), Value::Null)),
+            Box::new(|s| (json!({"%": [s, 1000]}), Value::Null)),
+            Box::new(|s| (json!({"min": [s, 1e300]}), Value::Null)),
+            Box::new(|s| (json!({"-": [s, 1]}), Value::Null)),
+            Box::new(|s| (json!({"in": [{"var": "s"}, {"var": "h"}]}), json!({"s": s, "h": [1, "x", s]}))),
+            Box::new(|s| (json!({"missing_some": [1, [s, "zz"]]}), json!({ s: 1 }))),
+            Box::new(|s| (json!({"var": s}), json!({ s: {"k": 1} }))),
         ];
         for t in templates.iter() {
             let (ra, da) = t(a);
             let (rb, db) = t(b);
+            if !judged_ops.is_empty() && !judged_ops.contains(&crate::ctx::top_op(&ra).as_str()) {
+                continue;
+            }
             for (r, d) in [(&ra, &da), (&rb, &db), (&ra, &da), (&rb, &db), (&rb, &db), (&ra, &da)] {
                 let obs = ctx.observe(r, d);
                 let (mo, tr) = refsem::model(r, d);
-                ctx.judge("c17.weak-key-history", r, d, &obs, &mo, &tr);
+                ctx.judge(monitor, r, d, &obs, &mo, &tr);
+            }
+        }
+        // ... and against the number the first literal denotes (comparisons and equalities that tell the two apart)
+        if let Ok(pa) = a.parse::<f64>() {
+            if pa.is_finite() {
+                for op in ["==", "!=", "<", "<=", ">", ">=", "===", "max", "min", "-", "in"] {
+                    if !judged_ops.is_empty() && !judged_ops.contains(&op) {
+                        continue;
+                    }
+                    let mk = |s: &str| -> (Value, Value) {
+                        match op {
+                            "in" => (json!({"in": [{"+": [s]}, [pa]]}), Value::Null),
+                            "-" => (json!({"-": [s, pa]}), Value::Null),
+                            _ => (json!({op: [{"var": "s"}, pa]}), json!({ "s": s })),
+                        }
+                    };
+                    let (ra, da) = mk(a);
+                    let (rb, db) = mk(b);
+                    for (r, d) in [(&ra, &da), (&rb, &db), (&ra, &da), (&rb, &db), (&rb, &db), (&ra, &da)] {
+                        let obs = ctx.observe(r, d);
+                        let (mo, tr) = refsem::model(r, d);
+                        ctx.judge(monitor, r, d, &obs, &mo, &tr);
+                    }
+                }
             }
         }
         ctx.mark_nontrivial_key(&format!("c17:weak-key:{}:{}:{}", hname, a, b));
